@@ -179,6 +179,28 @@ pub async fn send_direct(r: &ActorRef<SimActor>, how: How, msg: Msg, world: &Wor
         },
         (How::AskJoin, Ty::A) => rep(r.ask(MsgA(msg)).await, id),
         (How::AskJoin, Ty::B) => rep(r.ask(MsgB(msg)).await, id),
+        (How::AskTL(t, late), ty) => {
+            // a busy caller: first poll, then nothing for `late`, then await
+            let mut fut: Pin<Box<dyn Future<Output = Res> + Send + '_>> = match ty {
+                Ty::A => Box::pin(async move { rep(r.ask_with_timeout(MsgA(msg), world.dur(t)).await, id) }),
+                Ty::B => Box::pin(async move { rep(r.ask_with_timeout(MsgB(msg), world.dur(t)).await, id) }),
+                Ty::Job => Box::pin(async move {
+                    match r.ask_with_timeout(JobMsg(msg), world.dur(t)).await {
+                        Ok(_jh) => Res::Ok,
+                        Err(e) => map_err(&e, id),
+                    }
+                }),
+            };
+            match futures::poll!(fut.as_mut()) {
+                Poll::Ready(res) => res,
+                Poll::Pending => {
+                    if late > 0 {
+                        tokio::time::sleep(world.dur(late)).await;
+                    }
+                    fut.await
+                }
+            }
+        }
         (How::TellC(t), Ty::A) => match tokio::time::timeout(world.dur(t), r.tell(MsgA(msg))).await {
             Ok(x) => unit(x, id),
             Err(_) => Res::Abandoned,
